@@ -114,11 +114,6 @@ Qed.
 (* ------------------------------------------------------------------------------------------------ *)
 (** * one record *)
 
-(* the 16 bytes of record i *)
-Definition rec_bytes (i : Z) (e : entry) : list Z :=
-  le_bytes 2 i ++ le_bytes 2 0 ++ le_bytes 4 (route_word (e_route e)) ++ le_bytes 4 (e_key e)
-  ++ le_bytes 4 (e_mask e) ++ [].
-
 Lemma rec_bytes_length : forall i e, length (rec_bytes i e) = 16%nat.
 Proof. intros. unfold rec_bytes. rewrite !app_length, !le_bytes_length. reflexivity. Qed.
 
@@ -165,12 +160,6 @@ Qed.
 
 (* ------------------------------------------------------------------------------------------------ *)
 (** * the packing loop builds the concatenation of the records *)
-
-Fixpoint recs_from (i : Z) (es : list entry) : list (list Z) :=
-  match es with
-  | [] => []
-  | e :: es' => rec_bytes i e :: recs_from (i + 1) es'
-  end.
 
 Lemma recs_from_length : forall es i, length (recs_from i es) = length es.
 Proof. induction es as [|e es IH]; intros i; simpl; [reflexivity|]. rewrite IH. reflexivity. Qed.
